@@ -165,7 +165,7 @@ impl Prop for C01 {
         let bin_reps = if tier == Tier::Quick { 1 } else { 4 };
         let mut sc = Scenario::new("C01", "chain");
         let ma = |r: &mut Rng| {
-            let k = *r.pick(crate::spec::MAS);
+            let k = crate::gen::pick_ma_kind(r);
             let n = r.range(1, 6);
             let mut m = Spec::un(k, n, if r.chance(0.2) { Spec::stall(r.range(1, 4), Spec::echo()) } else { Spec::echo() });
             gen_params(r, &mut m, false);
@@ -234,11 +234,11 @@ impl Prop for C01 {
                 }
             }
         };
-        let positive = tree.needs_positive_feed();
+        let sign = pick_feed_sign(r, std::slice::from_ref(&tree));
         let shape = r.below(SHAPES.len()) as u8;
         let scale = *r.pick(SCALES) / 4.25;
         let len = r.range(50, 400);
-        let vals = gen_shape(r, shape, len, scale, positive);
+        let vals = crate::feed::gen_signed(r, shape, len, scale, sign);
         let p_obs = *r.pick(&[0.0, 0.2, 0.5]);
         let early = r.chance(0.3);
         sc.events = single_schedule(r, &vals, p_obs, early);
